@@ -339,12 +339,12 @@ pub fn map_space(tb: &Tables, tier: Tier) -> Vec<Maps> {
     let nv = tb.vulns.len();
     let no = tb.opts.len();
     let nq = tb.qas.len();
-    let file_counts: &[usize] = &[1, 2, 3];
+    let file_counts: &[usize] = if tier == Tier::Quick { &[1, 2, 3] } else { &[1, 2, 3, 4, 5] };
     let mut k = 0usize;
-    // vulnerabilities: all subsets x files 1..3 x variants
+    // vulnerabilities: all subsets x files 1..3 (thorough: 1..5) x variants
     for mask in 0u32..(1 << nv) {
         for &nf in file_counts {
-            for var in 0..(if tier == Tier::Quick { 3 } else { 9 }) {
+            for var in 0..(if tier == Tier::Quick { 3 } else { 27 }) {
                 k += 1;
                 let v: Vec<(usize, Files)> = (0..nv).filter(|i| mask & (1 << i) != 0).map(|i| (i, files_variant(k + i + var, nf))).collect();
                 out.push(Maps { v, o: vec![], q: vec![] });
@@ -471,9 +471,29 @@ pub fn map_space(tb: &Tables, tier: Tier) -> Vec<Maps> {
             }
         }
     }
+    // thorough: ordered triples of the special names under one pattern
+    if tier == Tier::Thorough {
+        let mut r = 0usize;
+        for a in NAMES2 {
+            for b in NAMES2 {
+                for c in NAMES2 {
+                    if a == b || b == c || a == c {
+                        continue;
+                    }
+                    let files: Files = vec![(a.to_string(), [3].into_iter().collect()), (b.to_string(), [3, 4].into_iter().collect()), (c.to_string(), [14].into_iter().collect())];
+                    r += 1;
+                    match r % 3 {
+                        0 => out.push(Maps { v: vec![(r % nv, files)], o: vec![], q: vec![] }),
+                        1 => out.push(Maps { v: vec![], o: vec![(r % no, files)], q: vec![] }),
+                        _ => out.push(Maps { v: vec![], o: vec![], q: vec![(r % nq, files)] }),
+                    }
+                }
+            }
+        }
+    }
     // all 8 presence combinations of the three categories (through generate_report)
     for mask in 0u32..8 {
-        for var in 0..(if tier == Tier::Quick { 4 } else { 16 }) {
+        for var in 0..(if tier == Tier::Quick { 4 } else { 64 }) {
             let v = if mask & 1 != 0 { vec![(var % nv, files_variant(var, 1 + var % 2))] } else { vec![] };
             let o = if mask & 2 != 0 { vec![((var * 5) % no, files_variant(var + 1, 1)), ((var * 5 + 7) % no, files_variant(var + 2, 2))] } else { vec![] };
             let q = if mask & 4 != 0 { vec![(var % nq, files_variant(var + 3, 1 + var % 3))] } else { vec![] };
@@ -588,7 +608,7 @@ pub fn c11_c12(property: &str, tier: Tier) -> i32 {
         "rule",
         "states = findings maps: all 16 vulnerability subsets x files 1..3 x line/name variants, all 8 QA subsets, optimisation singletons / all pairs / full / empty, same file name repeated with overlapping and identical line sets, all 8 category-presence combinations; file names include blanks, colons, non-ASCII, list-item and heading look-alikes; transitions = renderings through generate_vulnerability_report / generate_optimization_report / generate_qa_report and generate_report (report file read back from a scratch working directory); oracle = tolerant parse-back (section texts taken from get_*_report_section of the same build); non-trivial = distinct report texts",
     );
-    run.set("bound_completed", "files per pattern <= 3");
+    run.set("bound_completed", if tier == Tier::Quick { "files per pattern <= 3" } else { "files per pattern <= 5; ordered triples of 23 special names" });
     run.set("samples", json!(space.iter().step_by(space.len() / 3 + 1).take(3).map(|m| describe_maps(m, &tb)).collect::<Vec<_>>()));
     run.assume("file names contain no line breaks (as the property states)");
     run.finish()
